@@ -119,8 +119,12 @@ public:
 
   shared_ptr &operator=(shared_ptr &&other) noexcept
   {
-    wrapper().~shared_ptr_wrapper();
-    other.wrapper().MoveTo(buffer_);
+    // Take over the new object before releasing the current one, like std::shared_ptr does:
+    // `other` may be *this (self-assignment), or it may be kept alive only by the object this
+    // pointer currently manages (p = std::move(p->next)). Releasing first would leave `other`
+    // destroyed before it is read.
+    shared_ptr tmp{std::move(other)};
+    swap(tmp);
     return *this;
   }
 
@@ -132,8 +136,9 @@ public:
 
   shared_ptr &operator=(const shared_ptr &other) noexcept
   {
-    wrapper().~shared_ptr_wrapper();
-    other.wrapper().CopyTo(buffer_);
+    // Copy first, release afterwards (see the move assignment operator).
+    shared_ptr tmp{other};
+    swap(tmp);
     return *this;
   }
 
